@@ -329,6 +329,23 @@ edit('std/math/emulated/field_mul.go',[('''	mc.a.evaluation = 0
 		}
 	}''')])
 save('benign-statereset-loop','C11','std/math/emulated/field_mul.go','cleanEvaluations rewritten as a loop over all six elements')
+m('rand-conditional-s','C20',['RAND-SOURCE'],'backend/groth16/bw6-761/prove.go','''	if _, err := _s.SetRandom(); err != nil {
+		return nil, err
+	}
+''','''	if len(pk.G1.B) > 1 {
+		if _, err := _s.SetRandom(); err != nil {
+			return nil, err
+		}
+	}
+''',note='s is drawn only on one branch: zero otherwise')
+m('schema-sort-fields','C07',['WIT-PURE'],'frontend/schema/schema.go','''	// first, let's replace the Field by reflect.StructField
+	is := toStructField(s.Fields, leafType, omitEmpty)
+''','''	// first, let's replace the Field by reflect.StructField
+	for i := range s.Fields {
+		s.Fields[i].Visibility = Unset
+	}
+	is := toStructField(s.Fields, leafType, omitEmpty)
+''',note='by-value receiver, but the Fields slice is shared with the caller: Instantiate erases the visibilities of the shared schema')
 json.dump({'comment':'selftest mutants: each patch breaks one rule instance and must be detected by the listed rule(s) of its property; produced by tools/make_selftest.py','mutants':M}, open(os.path.join(root,'selftest','mutants.json'),'w'), indent=1)
 subprocess.run(['git','-C','/repo','worktree','remove','--force',WT],capture_output=True)
 print(len(M),'mutants')
